@@ -80,11 +80,15 @@ CHECKS = {
  'C13': ('exploration',
          'owned thread scheduler (settrace) with Hypothesis/PCT-generated '
          'schedules, exhaustive <=2-preemption enumeration in thorough; '
-         'outcome sweep over exception classes',
+         'outcome sweep over exception classes; generated delivery/drain '
+         'sequences through the Flask handlers with a pristine-application '
+         'metamorphic oracle (part W)',
          'E3',
          'Real put_job/process_task/Job.__eq__ run in real threads under a '
          'line-granular scheduler; accepted deliveries must be followed by a '
-         'later evaluation start; the worker must survive every outcome.',
+         'later evaluation start; the worker must survive every outcome. '
+         'Part W: what a delivery enqueues on a pristine application it must '
+         'enqueue after any history of deliveries and evaluations.',
          'interleavings at source-line granularity inside bert_e.py/job.py; '
          'queue.Queue internals atomic per line; BaseExceptions out of domain',
          'DESIGN.md 4/C13'),
